@@ -3,10 +3,12 @@
 
    Every theorem quantifies over: every destination writer (any state type, any function answering
    (accepted, error, new state) with accepted <= offered), every buffer size, whether or not the destination
-   implements io.StringWriter / http.Flusher, every escaping function, every environment (value and optional
-   error of every Go expression), every context state, every program of the generated-code shape
-   (spec/RenderSpec.v [node]: literals, expressions, nested templates and block closures, templ.Join, templ.Flush,
-   templ.Raw, hand-written components), every pool content and every pool choice. *)
+   implements io.StringWriter / http.Flusher, every escaping function, every environment (for every enclosing
+   loop-iteration path: value and optional error of every string expression, truth of every boolean expression,
+   selected case of every switch tag, number of elements of every ranged-over expression), every context state,
+   every program of the generated-code shape (spec/RenderSpec.v [node]: literals, expressions, nested templates
+   and block closures, templ.Join, templ.Flush, templ.Raw, hand-written components, if/else-if/else, for, switch,
+   conditional and boolean attributes - nested to any depth), every pool content and every pool choice. *)
 From Coq.Strings Require Import Byte String.
 From Coq Require Import List NArith Arith.
 Import ListNotations.
@@ -17,12 +19,13 @@ Local Open Scope nat_scope.
    no failure of its own). *)
 Theorem C10_nil_means_all :
   forall (sink_st : Type) (sink : sink_st -> bytes -> nat * option err * sink_st) (cap : nat) (sw flusher : bool)
-         (esc : bytes -> bytes) (env : N -> bytes * option N) (cancel : option N),
+         (esc : bytes -> bytes) (env : list nat -> N -> bytes * option N) (benv : list nat -> N -> bool)
+         (senv cnt : list nat -> N -> nat) (cancel : option N),
   (forall s p, fst (fst (sink s p)) <= length p) ->
   forall pool choice g body (w0 : world sink_st) w' pool',
   recv w0 = [] -> log w0 = [] ->
-  render_top sink_st sink cap sw flusher esc env cancel true pool choice g body w0 = (None, w', pool') ->
-  recv w' = fst (denote esc env cancel (Templ g body)) /\ snd (denote esc env cancel (Templ g body)) = None.
+  render_top sink_st sink cap sw flusher esc env benv senv cnt cancel true pool choice g body w0 = (None, w', pool') ->
+  recv w' = fst (denote esc env benv senv cnt cancel (Templ g body) []) /\ snd (denote esc env benv senv cnt cancel (Templ g body) []) = None.
 Proof. exact nil_means_all. Qed.
 Print Assumptions C10_nil_means_all.
 
@@ -33,16 +36,17 @@ Print Assumptions C10_nil_means_all.
    that very error. *)
 Theorem C10_fail_stop :
   forall (sink_st : Type) (sink : sink_st -> bytes -> nat * option err * sink_st) (cap : nat) (sw flusher : bool)
-         (esc : bytes -> bytes) (env : N -> bytes * option N) (cancel : option N),
+         (esc : bytes -> bytes) (env : list nat -> N -> bytes * option N) (benv : list nat -> N -> bool)
+         (senv cnt : list nat -> N -> nat) (cancel : option N),
   (forall s p, fst (fst (sink s p)) <= length p) ->
   forall pool choice g body (w0 : world sink_st) res w' pool',
   recv w0 = [] -> log w0 = [] ->
-  render_top sink_st sink cap sw flusher esc env cancel true pool choice g body w0 = (res, w', pool') ->
-  prefix (recv w') (fst (denote esc env cancel (Templ g body))) /\
+  render_top sink_st sink cap sw flusher esc env benv senv cnt cancel true pool choice g body w0 = (res, w', pool') ->
+  prefix (recv w') (fst (denote esc env benv senv cnt cancel (Templ g body) [])) /\
   (forall x, first_refusal (log w') = Some x ->
      res <> None /\
-     (res = Some x \/ (res = snd (denote esc env cancel (Templ g body)) /\ snd (denote esc env cancel (Templ g body)) <> None)) /\
-     (snd (denote esc env cancel (Templ g body)) = None -> res = Some x)).
+     (res = Some x \/ (res = snd (denote esc env benv senv cnt cancel (Templ g body) []) /\ snd (denote esc env benv senv cnt cancel (Templ g body) []) <> None)) /\
+     (snd (denote esc env benv senv cnt cancel (Templ g body) []) = None -> res = Some x)).
 Proof. exact fail_stop. Qed.
 Print Assumptions C10_fail_stop.
 
@@ -50,12 +54,13 @@ Print Assumptions C10_fail_stop.
    real implementation's observations). *)
 Theorem C10_render_meets_spec :
   forall (sink_st : Type) (sink : sink_st -> bytes -> nat * option err * sink_st) (cap : nat) (sw flusher : bool)
-         (esc : bytes -> bytes) (env : N -> bytes * option N) (cancel : option N),
+         (esc : bytes -> bytes) (env : list nat -> N -> bytes * option N) (benv : list nat -> N -> bool)
+         (senv cnt : list nat -> N -> nat) (cancel : option N),
   (forall s p, fst (fst (sink s p)) <= length p) ->
   forall pool choice g body (w0 : world sink_st) res w' pool',
   recv w0 = [] -> log w0 = [] ->
-  render_top sink_st sink cap sw flusher esc env cancel true pool choice g body w0 = (res, w', pool') ->
-  spec_ok (fst (denote esc env cancel (Templ g body))) (snd (denote esc env cancel (Templ g body))) res (recv w') (log w').
+  render_top sink_st sink cap sw flusher esc env benv senv cnt cancel true pool choice g body w0 = (res, w', pool') ->
+  spec_ok (fst (denote esc env benv senv cnt cancel (Templ g body) [])) (snd (denote esc env benv senv cnt cancel (Templ g body) [])) res (recv w') (log w').
 Proof. exact render_top_spec. Qed.
 Print Assumptions C10_render_meets_spec.
 
@@ -65,15 +70,16 @@ Print Assumptions C10_render_meets_spec.
    precedes the expression. *)
 Theorem C10_expr_error_position :
   forall (sink_st : Type) (sink : sink_st -> bytes -> nat * option err * sink_st) (cap : nat) (sw flusher : bool)
-         (esc : bytes -> bytes) (env : N -> bytes * option N) (cancel : option N),
+         (esc : bytes -> bytes) (env : list nat -> N -> bytes * option N) (benv : list nat -> N -> bool)
+         (senv cnt : list nat -> N -> nat) (cancel : option N),
   (forall s p, fst (fst (sink s p)) <= length p) ->
   forall pool choice (g : bool) pre id file line col post v x (w0 : world sink_st) res w' pool',
   recv w0 = [] -> log w0 = [] ->
   (if g then cancel else None) = None ->
-  snd (seq_d node (denote esc env cancel) pre) = None ->
-  env id = (v, Some x) ->
-  render_top sink_st sink cap sw flusher esc env cancel true pool choice g (pre ++ Expr id file line col :: post) w0 = (res, w', pool') ->
-  prefix (recv w') (fst (seq_d node (denote esc env cancel) pre)) /\
+  snd (seq_d node (fun n => denote esc env benv senv cnt cancel n []) pre) = None ->
+  env [] id = (v, Some x) ->
+  render_top sink_st sink cap sw flusher esc env benv senv cnt cancel true pool choice g (pre ++ Expr id file line col :: post) w0 = (res, w', pool') ->
+  prefix (recv w') (fst (seq_d node (fun n => denote esc env benv senv cnt cancel n []) pre)) /\
   (first_refusal (log w') = None -> res = Some (ETempl file line col (EExpr x))) /\
   (forall z, first_refusal (log w') = Some z -> res = Some (ETempl file line col (EExpr x)) \/ res = Some z).
 Proof. exact expr_error_position. Qed.
@@ -84,15 +90,16 @@ Print Assumptions C10_expr_error_position.
    first failure, Render returns y unless the destination refused first. *)
 Theorem C10_program_error_returned :
   forall (sink_st : Type) (sink : sink_st -> bytes -> nat * option err * sink_st) (cap : nat) (sw flusher : bool)
-         (esc : bytes -> bytes) (env : N -> bytes * option N) (cancel : option N),
+         (esc : bytes -> bytes) (env : list nat -> N -> bytes * option N) (benv : list nat -> N -> bool)
+         (senv cnt : list nat -> N -> nat) (cancel : option N),
   (forall s p, fst (fst (sink s p)) <= length p) ->
   forall pool choice g body (w0 : world sink_st) res w' pool' y,
   recv w0 = [] -> log w0 = [] ->
-  render_top sink_st sink cap sw flusher esc env cancel true pool choice g body w0 = (res, w', pool') ->
-  snd (denote esc env cancel (Templ g body)) = Some y ->
+  render_top sink_st sink cap sw flusher esc env benv senv cnt cancel true pool choice g body w0 = (res, w', pool') ->
+  snd (denote esc env benv senv cnt cancel (Templ g body) []) = Some y ->
   (first_refusal (log w') = None -> res = Some y) /\
   (forall x, first_refusal (log w') = Some x -> res = Some y \/ res = Some x) /\
-  prefix (recv w') (fst (denote esc env cancel (Templ g body))).
+  prefix (recv w') (fst (denote esc env benv senv cnt cancel (Templ g body) [])).
 Proof. exact program_error_returned. Qed.
 Print Assumptions C10_program_error_returned.
 
@@ -100,10 +107,11 @@ Print Assumptions C10_program_error_returned.
    not called, nothing is taken from or put into the pool. *)
 Theorem C10_cancelled_no_output :
   forall (sink_st : Type) (sink : sink_st -> bytes -> nat * option err * sink_st) (cap : nat) (sw flusher : bool)
-         (esc : bytes -> bytes) (env : N -> bytes * option N) (cancel : option N),
+         (esc : bytes -> bytes) (env : list nat -> N -> bytes * option N) (benv : list nat -> N -> bool)
+         (senv cnt : list nat -> N -> nat) (cancel : option N),
   forall pool choice body (w0 : world sink_st) c,
   cancel = Some c ->
-  render_top sink_st sink cap sw flusher esc env cancel true pool choice true body w0 = (Some (ECtx c), w0, pool).
+  render_top sink_st sink cap sw flusher esc env benv senv cnt cancel true pool choice true body w0 = (Some (ECtx c), w0, pool).
 Proof. exact cancelled_no_output. Qed.
 Print Assumptions C10_cancelled_no_output.
 
@@ -125,13 +133,14 @@ Print Assumptions C10_pool_independent.
    of the buffered writer always returns.  Without it see [C10_spin_witness]. *)
 Theorem C10_no_spin_under_contract :
   forall (sink_st : Type) (sink : sink_st -> bytes -> nat * option err * sink_st) (cap : nat) (sw flusher : bool)
-         (esc : bytes -> bytes) (env : N -> bytes * option N) (cancel : option N),
+         (esc : bytes -> bytes) (env : list nat -> N -> bytes * option N) (benv : list nat -> N -> bool)
+         (senv cnt : list nat -> N -> nat) (cancel : option N),
   (forall s p, fst (fst (sink s p)) <= length p) ->
   (forall s p n s', p <> [] -> sink s p = (n, None, s') -> 0 < n) ->
   0 < cap ->
   forall pool choice g body (w0 : world sink_st) res w' pool',
   log w0 = [] ->
-  render_top sink_st sink cap sw flusher esc env cancel true pool choice g body w0 = (res, w', pool') ->
+  render_top sink_st sink cap sw flusher esc env benv senv cnt cancel true pool choice g body w0 = (res, w', pool') ->
   ~ In LSpin (log w').
 Proof. exact render_top_no_spin. Qed.
 Print Assumptions C10_no_spin_under_contract.
@@ -160,33 +169,49 @@ Lemma C10_spin_witness :
     = [(Some ESpin, [])].
 Proof. exact spin_witness. Qed.
 
-(* non-vacuity: a program with a literal, two expressions (the second failing), a nested template, join, flush, raw
-   and a hand-written component; cap = 4; the destination fails after 9 bytes, or never *)
-Definition ex_env : N -> bytes * option N :=
-  fun i => if N.eqb i 2 then (bs "zz", Some 5%N) else (bs "<v>", None).
+(* non-vacuity: a program with a literal, two expressions (the second failing), a nested template, join, flush, raw,
+   a hand-written component, if / else-if / else, a for loop with a per-iteration expression (failing in iteration 2
+   when asked to), a switch and a boolean attribute; cap = 4; the destination fails after 9 bytes, or never *)
+Definition ex_env (loopfail : bool) : list nat -> N -> bytes * option N :=
+  fun path i => if N.eqb i 2 then (bs "zz", Some 5%N)
+                else if N.eqb i 3 then (match path with [k] => dec (N.of_nat k) | _ => bs "?" end,
+                                        match path with [2] => if loopfail then Some 6%N else None | _ => None end)
+                else (bs "<v>", None).
+Definition ex_benv : list nat -> N -> bool := fun _ i => N.eqb i 11.
+Definition ex_senv : list nat -> N -> nat := fun _ _ => 1.
+Definition ex_cnt : list nat -> N -> nat := fun _ _ => 4.
 Definition ex_body (failing : bool) : list node :=
   [Lit (bs "<p>"); Expr 1%N (bs "t.templ") 3%N 9%N; Templ true [Lit (bs "in"); Func [FWrite (bs "0123456789")]];
-   Flush [Lit (bs "fl")]; Join [Raw (bs "<hr>") None; Nop]; Expr (if failing then 2%N else 1%N) (bs "t.templ") 7%N 4%N; Lit (bs "</p>")].
+   Flush [Lit (bs "fl")]; Join [Raw (bs "<hr>") None; Nop];
+   If (CBool 10%N) [Lit (bs "A")] [If (CBool 11%N) [Lit (bs "B")] [Lit (bs "C")]];
+   CondLit 10%N (bs " hidden"); CondLit 11%N (bs " open");
+   For 20%N [Lit (bs "("); Expr 3%N (bs "t.templ") 5%N 2%N; Lit (bs ")")];
+   Switch 30%N [[Lit (bs "s0")]; [Lit (bs "s1")]] [Lit (bs "sd")];
+   Expr (if failing then 2%N else 1%N) (bs "t.templ") 7%N 4%N; Lit (bs "</p>")].
 Definition ex_world (mode : N) (limit : nat) : world fsink :=
   {| sst := {| f_mode := mode; f_limit := limit; f_tripped := false; f_err := 3%N |}; recv := []; log := []; marks := [] |}.
 Definition ex_view (r : option err * world fsink * list bw) : option err * bytes := (fst (fst r), recv (snd (fst r))).
+Definition ex_render (loopfail : bool) (cancel : option N) (failing : bool) (mode : N) (limit : nat) :=
+  ex_view (render_top fsink fsink_step 4 false true html_escape (ex_env loopfail) ex_benv ex_senv ex_cnt cancel true [] 0 true
+             (ex_body failing) (ex_world mode limit)).
 
 Example C10_ex_complete :
-  ex_view (render_top fsink fsink_step 4 false true html_escape ex_env None true [] 0 true (ex_body false) (ex_world 0%N 0))
-    = (None, bs "<p>&lt;v&gt;in0123456789fl<hr>&lt;v&gt;</p>") /\
-  denote html_escape ex_env None (Templ true (ex_body false)) = (bs "<p>&lt;v&gt;in0123456789fl<hr>&lt;v&gt;</p>", None).
+  ex_render false None false 0%N 0 = (None, bs "<p>&lt;v&gt;in0123456789fl<hr>B open(0)(1)(2)(3)s1&lt;v&gt;</p>") /\
+  denote html_escape (ex_env false) ex_benv ex_senv ex_cnt None (Templ true (ex_body false)) []
+    = (bs "<p>&lt;v&gt;in0123456789fl<hr>B open(0)(1)(2)(3)s1&lt;v&gt;</p>", None).
 Proof. split; vm_compute; reflexivity. Qed.
-Example C10_ex_sink_fails :
-  ex_view (render_top fsink fsink_step 4 false true html_escape ex_env None true [] 0 true (ex_body false) (ex_world 1%N 9))
-    = (Some (ESink 3%N), bs "<p>&lt;v&").
+Example C10_ex_sink_fails : ex_render false None false 1%N 9 = (Some (ESink 3%N), bs "<p>&lt;v&").
 Proof. vm_compute. reflexivity. Qed.
 Example C10_ex_expr_fails :
-  ex_view (render_top fsink fsink_step 4 false true html_escape ex_env None true [] 0 true (ex_body true) (ex_world 0%N 0))
-    = (Some (ETempl (bs "t.templ") 7%N 4%N (EExpr 5%N)), bs "<p>&lt;v&gt;in0123456789fl<hr>").
+  ex_render false None true 0%N 0
+    = (Some (ETempl (bs "t.templ") 7%N 4%N (EExpr 5%N)), bs "<p>&lt;v&gt;in0123456789fl<hr>B open(0)(1)(2)(3)s1").
 Proof. vm_compute. reflexivity. Qed.
-Example C10_ex_cancelled :
-  ex_view (render_top fsink fsink_step 4 false true html_escape ex_env (Some 1%N) true [] 0 true (ex_body false) (ex_world 0%N 0))
-    = (Some (ECtx 1%N), []).
+(* an expression failing in the third iteration of the loop: the first two iterations are out, the loop is left *)
+Example C10_ex_loop_iteration_fails :
+  ex_render true None false 0%N 0
+    = (Some (ETempl (bs "t.templ") 5%N 2%N (EExpr 6%N)), bs "<p>&lt;v&gt;in0123456789fl<hr>B open(0)(1)(").
+Proof. vm_compute. reflexivity. Qed.
+Example C10_ex_cancelled : ex_render false (Some 1%N) false 0%N 0 = (Some (ECtx 1%N), []).
 Proof. vm_compute. reflexivity. Qed.
 Example C10_ex_contract : forall s p n s', p <> [] -> f_mode s <> 4%N -> fsink_step s p = (n, None, s') ->
   f_mode s = 0%N \/ f_mode s = 3%N \/ 0 < n \/ f_limit s = 0.
